@@ -40,3 +40,52 @@ nni_free(void *ptr, size_t size)
 	}
 	free(ptr);
 }
+
+/* nni_strdup (src/core/strs.c): same body as the real one. */
+char *
+nni_strdup(const char *src)
+{
+	char  *dst;
+	size_t len = strlen(src) + 1;
+
+	if ((dst = nni_alloc(len)) != NULL) {
+		memcpy(dst, src, len);
+	}
+	return (dst);
+}
+
+/* nni_get_port_by_name (platform resolver: strtol / getservbyname): ASSUMED
+ * to either fail or store some 16-bit port; the name is not interpreted. */
+int
+nni_get_port_by_name(const char *name, uint32_t *portp)
+{
+	__CPROVER_assert(__CPROVER_r_ok(name, 1), "port name readable");
+	if (nondet_bool()) {
+		return (NNG_EADDRINVAL);
+	}
+	*portp = nondet_u16();
+	return (0);
+}
+
+/* snprintf(dst, n, "%s", s): exact model (truncating copy, always
+ * NUL-terminated for n > 0, returns strlen(s)). */
+#include <stdarg.h>
+int
+vp_snprintf(char *dst, size_t n, const char *fmt, ...)
+{
+	va_list     ap;
+	const char *s;
+	size_t      l, c;
+	__CPROVER_assert(fmt[0] == '%' && fmt[1] == 's' && fmt[2] == 0,
+	    "snprintf model: only the \"%s\" format is modelled");
+	va_start(ap, fmt);
+	s = va_arg(ap, const char *);
+	va_end(ap);
+	l = strlen(s);
+	if (n > 0) {
+		c = (l < n - 1) ? l : n - 1;
+		memcpy(dst, s, c);
+		dst[c] = 0;
+	}
+	return ((int) l);
+}
